@@ -423,7 +423,9 @@ class Machine:
         body, pre = getattr(li, "body_env", None), getattr(li, "pre_env", None)
         if body is None or pre is None or li.kind != "for" or li.has_else:
             raise Unknown("loop state not recorded")
-        if any(e.kind in ("break", "return", "raise") and li.id in e.loops for e in s.events):
+        # (a raise inside the loop is an event of its own: the walk over the events reaches it, iteration by iteration, before anything
+        # that reads the variable after the loop)
+        if any(e.kind in ("break", "return") and li.id in e.loops for e in s.events):
             raise Unknown("loop with an early exit")
         names = [n for n in pre if pre[n] is not None]
         if name not in names:
